@@ -105,8 +105,8 @@ KINDS = ["linear", "sin", "tanh", "quad"]
 SIZES = ["mixed", "ones", "twos"]
 PARALLEL = ["serial", "threads", "processes"]
 # SciPy root methods that converge on (contractive) linear systems; hybr is the class default
-QN_METHODS = ["hybr", "lm", "broyden1", "broyden2", "anderson", "krylov", "df-sane"]
-SEQUENCES = ["jacobi3+newton", "gs2+jacobi", "jacobi2+gs", "newton1+gs"]
+QN_METHODS = ["hybr", "lm", "broyden1", "broyden2", "anderson", "krylov", "df-sane", "diagbroyden", "excitingmixing"]
+SEQUENCES = ["jacobi3+newton", "gs2+jacobi", "jacobi2+gs", "newton2+gs"]
 INNER = ["MDAJacobi", "MDAGaussSeidel", "MDANewtonRaphson", "MDAQuasiNewton", "MDAGSNewton"]
 PLAIN = ["MDAJacobi", "MDAGaussSeidel", "MDANewtonRaphson", "MDAQuasiNewton", "MDAGSNewton", "MDASequential"]
 DEFAULT_ACC = {"MDAJacobi": "Alternate2Delta"}
@@ -544,7 +544,7 @@ def run_case(case, tally):
             viol("execution-raises", case.get("inner", case["cls"]), f"run {k + 1}: {type(e).__name__}: {str(e)[:300]}")
             all_conv = False
             break
-        reports, s_fac, failed = [], 1.0, None
+        reports, s_fac, failed, short = [], 1.0, None, False
         for name, m, decisive in _phases(mda):
             if name == "MDAQuasiNewton":  # no convergence report exists: SciPy's documented criteria
                 meth = str(m.settings.method)
@@ -558,9 +558,14 @@ def run_case(case, tally):
             else:
                 s = _s_factor(str(m.scaling), sysm.n_c, r0)
                 rep, its = float(m.normed_residual), int(m._current_iter)
-                full_budget = m.settings.max_mda_iter >= MAX_ITER
-                if not rep <= TOL and (decisive or full_budget) and failed is None:
-                    failed = (name, rep, its, m.settings.max_mda_iter)
+                if not rep <= TOL:
+                    if m.settings.max_mda_iter >= MAX_ITER:
+                        failed = failed or (name, rep, its, m.settings.max_mda_iter)
+                    elif decisive:
+                        # oracle boundary: a phase that was deliberately given a few iterations only (GS-Newton with
+                        # max_mda_iter = 4, first phases of MDASequential) may legitimately exhaust them - its criterion is
+                        # relative to its own, possibly tiny, first residual; nothing is then claimed about the data
+                        short = True
             reports.append([name, rep, its, decisive])
             if decisive:
                 s_fac = max(s_fac, s)
@@ -577,6 +582,11 @@ def run_case(case, tally):
             viol("converges", failed[0], f"run {k + 1} (x={list(x)}): {failed[0]} stopped after {failed[2]} iterations with normed residual {failed[1]:.3e} "
                  f"> tolerance {TOL} on a system contracting with q={sysm.q:.3f} (max_mda_iter={failed[3]})")
             continue  # the premises of (i)-(iii) are gone
+        if short:
+            all_conv = False
+            rec["converged"] = "budget-exhausted"
+            tally.count("budget_exhausted_runs")
+            continue
         missing = [v for v in sysm.names if v not in out]
         if missing or any(out[v].shape != (sysm.size[v],) for v in sysm.names if v in out):
             viol("returned-data-shape", deciders, f"run {k + 1}: missing {missing}; shapes {[(v, out[v].shape) for v in out]}")
@@ -603,7 +613,7 @@ def run_case(case, tally):
     bucket = "<3" if max_iters < 3 else "<10" if max_iters < 10 else "<40" if max_iters < 40 else ">=40"
     outcome = f"{case['cls']}:{'converged' if all_conv else 'not-converged'}:it{bucket}"
     smp = None
-    if case.get("_deviations") == 1 and case["n"] == 3 and len(case["edges"]) == 4 and case["acc"] == "Secant":
+    if case["n"] == 3 and len(case["edges"]) == 4 and not case["loops"] and case["order"] == [2, 0, 1]:
         smp = {"case": case, "runs": obs["runs"]}
     tally.case(case_key(case), nontrivial=all_conv and max_iters >= 3, outcome=outcome, sample=smp)
     return obs
@@ -629,9 +639,11 @@ def _case(case, tally):
 # ------------------------------------------------------------------------------------------------
 # enumeration
 # ------------------------------------------------------------------------------------------------
+TRANSFORMER_CLASSES = ("MDAJacobi", "MDAGaussSeidel", "MDANewtonRaphson", "MDAGSNewton", "MDAChain")
+
+
 def axes_for(cls, n):
-    # "default" = no acceleration_method passed: Alternate2Delta for (inner) Jacobi, NoTransformation otherwise
-    trans = [["default", 1.0]] + [[a, o] for a in ACCELERATIONS for o in OMEGAS]
+    # acc "default" = no acceleration_method passed: Alternate2Delta for (inner) Jacobi, NoTransformation otherwise
     orders = [list(p) for p in itertools.permutations(range(n))]
     ax = {}
     if cls == "MDAQuasiNewton":
@@ -642,8 +654,9 @@ def axes_for(cls, n):
     if cls == "MDAChain":
         ax["inner"] = list(INNER)
         ax["par_tasks"] = [False, True]
-    if cls in ("MDAJacobi", "MDAGaussSeidel", "MDANewtonRaphson", "MDAGSNewton", "MDAChain"):
-        ax["transformer"] = trans
+    if cls in TRANSFORMER_CLASSES:
+        ax["acc"] = ["default", *ACCELERATIONS]
+        ax["omega"] = list(OMEGAS)
     if cls == "MDAGSNewton":
         ax["max_iter"] = [MAX_ITER, 4]
     ax["scaling"] = list(SCALINGS)
@@ -658,46 +671,85 @@ def axes_for(cls, n):
     return ax
 
 
-def expand(cls, n, edges, loops, k, only_axes=None):
+def _finish(cls, n, edges, loops, c):
+    """Resolve the defaults that depend on the (inner) solver class; None for combinations that do not exist in gemseo."""
+    c = dict(c)
+    acc, om = c.pop("acc", "default"), c.pop("omega", 1.0)
+    solver = c.get("inner", cls) if cls == "MDAChain" else cls
+    dacc = DEFAULT_ACC.get(solver, "NoTransformation")
+    if acc == "default":
+        acc = dacc
+    elif acc == dacc:
+        return None  # the same configuration as the default value of the axis
+    if (solver == "MDAQuasiNewton" or (cls == "MDAChain" and solver == "MDAGSNewton")) and (acc, om) != ("NoTransformation", 1.0):
+        return None  # quasi-Newton has no sequence transformer; a chain cannot pass one to an inner GS-Newton
+    if cls == "MDAChain" and solver not in ("MDAJacobi", "MDANewtonRaphson", "MDAQuasiNewton") and c.get("parallel", "serial") != "serial":
+        return None  # the inner class has no n_processes
+    return {"cls": cls, "n": n, "edges": edges, "loops": loops, "acc": acc, "omega": om, **c}
+
+
+def expand(cls, n, edges, loops, k, only_axes=None, transformer_product=False):
+    """Every vector with <= k deviations (over ``only_axes`` if given); ``transformer_product``: in addition the whole
+    acceleration x relaxation product of the composite transformer (2 deviations) when k < 2."""
     ax = axes_for(cls, n)
     if only_axes is not None:
         ax = {a: (v if a in only_axes else v[:1]) for a, v in ax.items()}
     for c in product.deviations(ax, k):
-        acc, om = c.pop("transformer", ["default", 1.0])
-        solver = c.get("inner", cls) if cls == "MDAChain" else cls
-        dacc = DEFAULT_ACC.get(solver, "NoTransformation")
-        if acc == "default":
-            acc = dacc
-        elif (acc, om) == (dacc, 1.0):
-            continue  # the same configuration as the default vector
-        if (solver == "MDAQuasiNewton" or (cls == "MDAChain" and solver == "MDAGSNewton")) and (acc, om) != ("NoTransformation", 1.0):
-            continue  # quasi-Newton has no sequence transformer; a chain cannot pass one to an inner GS-Newton
-        if cls == "MDAChain" and solver not in ("MDAJacobi", "MDANewtonRaphson", "MDAQuasiNewton") and c.get("parallel", "serial") != "serial":
-            continue  # the inner class has no n_processes
-        yield {"cls": cls, "n": n, "edges": edges, "loops": loops, "acc": acc, "omega": om, **c}
+        case = _finish(cls, n, edges, loops, c)
+        if case is not None:
+            yield case
+    if transformer_product and k < 2 and cls in TRANSFORMER_CLASSES:
+        full = axes_for(cls, n)
+        base = {a: v[0] for a, v in full.items()}
+        for acc in full["acc"][1:]:
+            for om in full["omega"][1:]:
+                case = _finish(cls, n, edges, loops, {**base, "acc": acc, "omega": om, "_deviations": 2})
+                if case is not None:
+                    yield case
+
+
+def graph_sets(n):
+    """(graphs per class, representatives per class)."""
+    allg = list(graphs(n))
+    strong = [(e, lp) for e, lp in allg if strongly_connected(n, [tuple(a) for a in e])]
+    coupled = [(e, lp) for e, lp in allg if e or lp]
+    sets = {cls: strong for cls in PLAIN}
+    sets["MDAJacobi"] = coupled  # MDAJacobi resolves all the couplings when some disciplines are only weakly coupled
+    sets["MDAChain"] = allg
+    return sets, strong
+
+
+def _gkey(e, lp):
+    return (tuple(map(tuple, e)), tuple(lp))
 
 
 def cases(thorough: bool):
     for n in (2, 3):
-        allg = list(graphs(n))
-        strong = [(e, lp) for e, lp in allg if strongly_connected(n, [tuple(a) for a in e])]
+        sets, strong = graph_sets(n)
+        strong_keys = {_gkey(e, lp) for e, lp in strong}
         for cls in [*PLAIN, "MDAChain"]:
-            glist = allg if cls == "MDAChain" else strong
-            reps = representatives(glist, n)
-            rep_keys = {(tuple(map(tuple, e)), tuple(lp)) for e, lp in reps}
+            glist = sets[cls]
+            rep_keys = {_gkey(e, lp) for e, lp in representatives(glist, n)}
             for e, lp in glist:
-                is_rep = (tuple(map(tuple, e)), tuple(lp)) in rep_keys
-                if thorough:
-                    k = 2 if (n == 2 or is_rep) else 1
-                    yield from expand(cls, n, e, lp, k)
-                elif n == 2:
-                    yield from expand(cls, n, e, lp, 1)
-                else:  # quick, n = 3: the default vector in every listing order on every labelled graph,
-                    # one deviation on the representatives
+                is_rep = _gkey(e, lp) in rep_keys
+                is_strong = _gkey(e, lp) in strong_keys
+                # two deviations: plain solvers on strongly connected graphs; chains on the graphs where a chain differs
+                # from its inner MDA (not one group covering every discipline) and that contain a loop to solve
+                gc = graph_class(n, e, lp)
+                deep = is_strong if cls != "MDAChain" else not (gc.startswith("one-group") or gc.startswith("acyclic"))
+                if n == 2:
+                    yield from expand(cls, n, e, lp, 2 if thorough and deep else 1, transformer_product=True)
+                elif thorough:
                     if is_rep:
-                        yield from expand(cls, n, e, lp, 1)
+                        yield from expand(cls, n, e, lp, 2 if deep else 1, transformer_product=True)
                     else:
                         yield from expand(cls, n, e, lp, 1, only_axes={"order"})
+                else:  # quick, n = 3: default vector on every labelled graph; on the representatives every listing order and
+                    # (strongly connected / multi-component ones) the acceleration x relaxation product
+                    if is_rep:
+                        yield from expand(cls, n, e, lp, 1, only_axes={"order"}, transformer_product=deep and cls != "MDAChain")
+                    else:
+                        yield from expand(cls, n, e, lp, 0)
 
 
 def run(ctx):
